@@ -308,8 +308,23 @@ def label_positions(var, indexers, node):
             raise AnalysisError('.sel with a non-slice indexer not modelled', node)
         lo = as_operand(sl.start)[1][1] if sl.start is not None else None
         hi = as_operand(sl.stop)[1][1] if sl.stop is not None else None
-        labs = [e.d[1] for e in coord.values.els()]
-        keep = [i for i in keep if (lo is None or labs[i] >= lo) and (hi is None or labs[i] <= hi)]
+        labs = [None if e.d == X.NAN else e.d[1] for e in coord.values.els()]
+        monotonic = None not in labs and all(a <= b for a, b in zip(labs, labs[1:]))
+        if monotonic:
+            keep = [i for i in keep if (lo is None or labs[i] >= lo) and (hi is None or labs[i] <= hi)]
+            continue
+        # library fact (pandas Index.slice_indexer): on an index that is not monotonic (rows out of order, a NaT among the stamps) a label
+        # slice is positional between the rows that carry exactly the bound labels; a bound that is not a label raises KeyError
+        def bound(v, side):
+            hits = [i for i, x in enumerate(labs) if x == v]
+            if not hits:
+                raise AbsRaise(ExcVal('KeyError', (f'Cannot get {side} slice bound for non-monotonic index with a missing label',)), node)
+            if len(hits) > 1 and hits != list(range(hits[0], hits[-1] + 1)):
+                raise AbsRaise(ExcVal('KeyError', (f'Cannot get {side} slice bound for non-unique label',)), node)
+            return hits[0] if side == 'left' else hits[-1]
+        a = 0 if lo is None else bound(lo, 'left')
+        b = n - 1 if hi is None else bound(hi, 'right')
+        keep = [i for i in keep if a <= i <= b]
     return keep
 
 
